@@ -1,5 +1,5 @@
 # replay of a bounded stand-in violation (C16): re-run native/c16_states.py
 import sys
-print('bosonic n=2 pure=True cat-complex: parity_expectation([0]) = 0.19557 but sum_n (-1)^n p(n) from reduced_dm = 0.18871')
+print('fock pure=True: run(prog, modes=[1, 0, 2]).state: index i of the returned state is not the i-th requested mode (quadratures [0.134, 0.158, 0.134, 0.158, 0.134, 0.158] vs [-0.023, -0.037, -0.023, -0.037, -0.023, -0.037] from the full state)')
 print('REPLAY-VIOLATION')
 sys.exit(1)
